@@ -424,7 +424,7 @@ fn grid(tier_thorough: bool) -> Vec<ArchiveSpec> {
     }
     // option grid on a fixed small file set
     for version in 1..=4u8 {
-        for attrs in [Attrs::None, Attrs::Crc32, Attrs::Full, Attrs::CrcsThenNone, Attrs::FullThenNoCrcs] {
+        for attrs in [Attrs::None, Attrs::Crc32, Attrs::Full, Attrs::CrcsThenNone, Attrs::FullThenNoCrcs, Attrs::Crc32ThenNoCrcs] {
             for listfile in [true, false] {
                 for ct in [false, true] {
                     for tm in [M_ZLIB, M_BZIP2, M_LZMA] {
